@@ -138,7 +138,8 @@ func rewriteFile(src, dst string) error {
 				// ranging over a channel cannot be told from the syntax alone; the package has none
 			case *ast.CallExpr:
 				if id, ok := v.Fun.(*ast.Ident); ok && id.Name == "close" && len(v.Args) == 1 {
-					unsupported = append(unsupported, pos(v)+": close(ch)")
+					usedVrt = true
+					v.Fun = sel(vrtName, "Close")
 				}
 			case *ast.UnaryExpr:
 				if v.Op == token.ARROW && !commRaw[v] {
